@@ -500,6 +500,7 @@ pub fn generate(prop: &str, tier: &str, seed: u64, out: &mut impl Write) {
                   w!("{enc} req {ids} WMRS 7 {d} 300 A5"); w!("#@ {tag} req {ids} WMRS 7 {d}");
                   w!("{enc} req {ids} RWMS 1 2 3 {d} 300 A5"); w!("#@ {tag} req {ids} RWMS 1 2 3 {d}");
                   for k in ["RHRS", "RIRS", "RWMS"] { w!("{enc} rsp {ids} {k} {d} 300 A5"); w!("#@ {tag} rsp {ids} {k} {d}"); } } }
+            if rtu { for sp in ["RES", "GCC", "GCL", "RSI"] { w!("rtuenc req 17 {sp} 8 A5"); w!("#@ C04 req 17 {sp}"); } }
             for x in [0u32, 0x5A, 0xFF] { if rtu { w!("rtuenc rsp 17 RES {x} 8 A5"); w!("#@ C04 rsp 17 RES {x}"); } else { w!("tcpenc rsp 7 9 RES {x} 12 A5"); w!("#@ C05 rsp 7 9 RES {x}"); } }
             for bc in [1usize, 3, 5] {
                 // a transplanted decoded `Data` (odd byte count) framed as a write request
@@ -1077,7 +1078,7 @@ pub fn generate(prop: &str, tier: &str, seed: u64, out: &mut impl Write) {
                 let src = if r.below(3) == 0 { let mut v = r.bytes(sl); for x in v.iter_mut() { if r.bool() { *x = 0; } } v } else { r.bytes(sl) };
                 w!("unpack {} {c} {ol}{}", hex_of(&src), if r.bool() { " T" } else { "" });
             }
-            for n in [0usize, 1, 7, 8, 9, 65535, 65536, 1 << 40] { w!("packedlen {n}"); }
+            for n in [0usize, 1, 7, 8, 9, 65535, 65536, 1 << 40, usize::MAX - 8, usize::MAX - 7, usize::MAX - 6, usize::MAX - 1, usize::MAX] { w!("packedlen {n}"); }
         }
         "C17" => {
             let emit = |ws: &[u16], t: usize, f: &str, out: &mut dyn Write, r: &mut Rng| {
@@ -1116,6 +1117,9 @@ pub fn generate(prop: &str, tier: &str, seed: u64, out: &mut impl Write) {
             } }
         }
         "C19" => {
+            // the serial-line-only kinds (open finding D19: pdu_len / encode are todo!() / unimplemented!())
+            for sp in ["RES", "DIA 1 W0001,0002 4 00", "GCC", "GCL", "RSI"] { w!("reqenc {sp} 16 A5"); w!("#@ C19 req {sp}"); }
+            for sp in ["DIA W0001,0002 4 00", "GCC 1 2", "GCL 1 2 3 0102", "RSI 0102 1"] { w!("rspenc {sp} 16 A5"); w!("#@ C19 rsp {sp}"); }
             // a `Data` taken from a DECODED register response (possibly with a dangling odd byte) reused in a request
             for bc in [1usize, 2, 3, 5, 9, 253, 255] { for fc in [3u8, 4, 0x17] {
                 let mut p = vec![fc, bc as u8]; p.extend(r.bytes(bc));
